@@ -132,6 +132,7 @@ def abstract_heap(objs, nobj, inv):
             heap.append({"absent": True})
             continue
         p = contmodel.proj(objs[o])
+        problems += [f"object {o}: {x}" for x in p["problems"]]
         try:
             units = [(inv["ann"][u[0]], inv["time"][u[1]], inv["time"][u[2]], inv["lab"][u[3]]) for u in p["units"]]
             c = {"ann": [inv["ann"][a] for a in p["ann"]], "units": units, "cats": [inv["lab"][x] for x in p["cats"]],
@@ -162,8 +163,13 @@ def abstract_heap(objs, nobj, inv):
             if "bad" in hi_ or "bad" in hj_:
                 continue
             want = hi_["ann"] == hj_["ann"] and hi_["units"] == hj_["units"]
-            if (objs[i] == objs[j]) != want or (objs[i] != objs[j]) == want:
-                problems.append(f"objects {i} == {j}: library says {objs[i] == objs[j]}, model says {want}")
+            try:
+                eqv, nev = (objs[i] == objs[j]), (objs[i] != objs[j])
+            except Exception as ex:
+                problems.append(f"objects {i} == {j} raised {ex!r}")
+                continue
+            if eqv != want or nev == want:
+                problems.append(f"objects {i} == {j}: library says {eqv}, model says {want}")
     return heap, problems
 
 
@@ -297,6 +303,16 @@ def l3(rep, pa, n_traces, length, batch=300, ops_weights=None, key_prefix="trace
     while done < n_traces:
         k = min(batch, n_traces - done)
         traces = [histories.record_history(pa, rng, length, ops_weights=ops_weights) for _ in range(k)]
+        for tr in list(traces):
+            bad = contmodel.observation_problems(tr)
+            if bad:
+                rep.violation(f"{key_prefix}.observe_raises.{tr[bad[0]]['op']}", {
+                    "layer": "L3 code->spec", "event_index": bad[0], "problems": bad[1],
+                    "history": [[e["op"], e["args"], e["out"]] for e in tr[:bad[0] + 1]]})
+                traces.remove(tr)
+        if not traces:
+            done += k
+            continue
         res, verdicts = contmodel.validate(traces, 4, workers=16)
         rep.add_tlc(res, label=f"TraceContinuum batch of {k}")
         rep.traces += k
